@@ -22,6 +22,7 @@ var S={v:{},d:{},P:function(){},a:{},w:{},arr:[],n:0};
 var C=0, F=400, flag=false, t;
 var inc, peek;
 (function(){var log=[]; inc=function(x){log[log.length]=x}; peek=function(){return log.join(',')}})();
+function __tc(){try{throw 0}catch(e0){return __rb()}}
 function __rb(){
   var d={}, ks=Object.getOwnPropertyNames(S.d), i;
   for(i=0;i<ks.length;i++){var ds=Object.getOwnPropertyDescriptor(S.d,ks[i]); d[ks[i]]=[ds.value,ds.enumerable,ds.writable,ds.configurable];}
